@@ -17,6 +17,6 @@ def run(rep, tier, seed, scratch):
         run_unit(rep, u, u.gen(g, tier), scratch)
     camp_props.run_single(rep, 'C06', tier, seed, 60, 500)
     # single precision: every dtype-dependent path (empty blocks, fast paths) on data that is exact in binary32
-    camp_props.run_single(rep, 'C06', tier, seed + 3, 24, 120, allow={'precision': 'Single', 'iteration_limit': 40}, name='single_precision')
+    camp_props.run_single(rep, 'C06', tier, seed + 3, 24, 120, allow={'precision': 'Single', 'iteration_limit': 40, 'validate_input': [True, False]}, name='single_precision')
     # grad f orthogonal to J^T c (ParetoDecrease divides by their inner product only when it is not ~0)
     camp_props.run_single(rep, 'C06', tier, seed + 5, 6, 24, allow={'penalty_update': 'ParetoDecrease', 'iteration_limit': 40}, families=['separable'], name='separable_pareto', scaling=False)
